@@ -107,3 +107,53 @@ Theorem source_span_name :
   /\ Gen_attr.gen_helper_async_from_sig = true
   /\ Gen_attr.gen_block_async_true = true.
 Proof. repeat split; try reflexivity; intros x; destruct x; reflexivity. Qed.
+
+(** ** Recognition of the boxed-future shapes *)
+Definition sBox : string := "Box"%string.
+Definition sPin : string := "pin"%string.
+Definition sSep : string := AttrStrings.sep.
+
+Lemma str_ends_with_refl s : str_ends_with s s = true.
+Proof. destruct s; unfold str_ends_with; fold str_ends_with; now rewrite String.eqb_refl. Qed.
+
+Lemma str_ends_with_app x suf : str_ends_with (String.append x suf) suf = true.
+Proof.
+  induction x as [|c x IH].
+  - apply str_ends_with_refl.
+  - change (String.append (String c x) suf) with (String c (String.append x suf)).
+    unfold str_ends_with; fold str_ends_with.
+    destruct (String.eqb (String c (String.append x suf)) suf); [reflexivity | exact IH].
+Qed.
+
+Lemma append_assoc_s a b c : String.append (String.append a b) c = String.append a (String.append b c).
+Proof. induction a as [|x a IH]; simpl; [reflexivity | now rewrite IH]. Qed.
+
+Lemma path_to_string_app pre a b :
+  exists x, path_to_string (pre ++ (a :: b :: nil)) = String.append x (path_to_string (a :: b :: nil)).
+Proof.
+  induction pre as [|p pre [x IH]].
+  - exists EmptyString. reflexivity.
+  - destruct pre as [|q pre].
+    + exists (String.append p sSep). simpl. now rewrite append_assoc_s.
+    + exists (String.append p (String.append sSep x)).
+      change (path_to_string ((p :: q :: pre) ++ a :: b :: nil))
+        with (String.append p (String.append sSep (path_to_string ((q :: pre) ++ a :: b :: nil)))).
+      rewrite IH. now rewrite !append_assoc_s.
+Qed.
+
+(** however the path to `Box::pin` is qualified, the function keeps its async kind *)
+Lemma kind_of_tail_qualified pre k :
+  kind_of_tail box_pin_suffix (pre ++ (sBox :: sPin :: nil)) k = k.
+Proof.
+  unfold kind_of_tail, tail_recognised.
+  destruct (path_to_string_app pre sBox sPin) as [x ->].
+  change (path_to_string (sBox :: sPin :: nil)) with box_pin_suffix.
+  now rewrite str_ends_with_app.
+Qed.
+
+Theorem source_box_pin :
+  Gen_attr.gen_box_pin_suffix = Some box_pin_suffix
+  /\ Gen_attr.gen_path_to_string_idents = true
+  /\ Gen_attr.gen_tail_async_block = true
+  /\ Gen_attr.gen_tail_helper_call = true.
+Proof. repeat split; reflexivity. Qed.
